@@ -69,7 +69,16 @@ def main(argv=None):
     a = ap.parse_args(argv)
 
     path = assert_repo()
+    repo_root = os.path.dirname(os.path.dirname(path))
     mod = importlib.import_module(f"hvmon.monitors.{a.prop}")
+    from . import linereach
+    try:
+        import hvsrpy  # noqa: make the package's functions live before local events are set
+        import hvsrpy.sesame  # noqa
+        import hvsrpy.cli  # noqa
+        lr = linereach.start(a.prop, repo_root)
+    except Exception:
+        lr = False
     ctx = Ctx(a.prop, a.tier, a.seed, a.shard, a.nshards, verbose=a.verbose)
     if a.only_index is not None:
         indices = [a.only_index]
@@ -79,6 +88,8 @@ def main(argv=None):
     res = ctx.result()
     res["wall_s"] = wall
     res["hvsrpy_path"] = path
+    if lr:
+        res["lines_reached"], res["lines_total"] = linereach.result(repo_root)
     with open(a.out, "w") as f:
         json.dump(res, f)
     return 0
